@@ -377,6 +377,26 @@ impl<ST: Service> ConnManager<ST> {
     Ok(())
   }
 
+  /// Verification hook (compiled only with `--cfg narwhal_verif`): read-only counters.
+  /// `(active connections, message pool available, message pool in use, payload pool available, payload pool in use)`.
+  #[cfg(narwhal_verif)]
+  pub async fn verif_stats(&self) -> (u32, usize, usize, usize, usize) {
+    let inner = self.0.read().await;
+    (
+      inner.active_connections.load(Ordering::SeqCst),
+      inner.message_buffer_pool.available_count(),
+      inner.message_buffer_pool.in_use_count(),
+      inner.payload_buffer_pool.total_available_count(),
+      inner.payload_buffer_pool.total_in_use_count(),
+    )
+  }
+
+  /// Verification hook (compiled only with `--cfg narwhal_verif`): geometry of the payload pool.
+  #[cfg(narwhal_verif)]
+  pub async fn verif_payload_geometry(&self) -> Vec<(usize, usize, usize)> {
+    self.0.read().await.payload_buffer_pool.verif_geometry()
+  }
+
   pub async fn run_connection<S, D: Dispatcher, DF: DispatcherFactory<D>>(
     &self,
     mut stream: S,
